@@ -288,7 +288,7 @@ RefDlvMin(s) ==
 RefDlv(s) == RefDlvMax(s)
 DlvSet(s) == {[o |-> s.dlv[i].o, t |-> s.dlv[i].t, u |-> s.dlv[i].u, v |-> s.dlv[i].v] : i \in 1..Len(s.dlv)}
 ExactUpdates(s) ==
-  (Ok(s) /\ s.status = "handlers" /\ s.runq = <<>>) =>
+  (Ok(s) /\ ~s.poisoned /\ s.status = "handlers" /\ s.runq = <<>>) =>
      /\ DlvSet(s) \subseteq RefDlvMax(s)
      /\ RefDlvMin(s) \subseteq DlvSet(s)
      /\ Cardinality(DlvSet(s)) = Len(s.dlv)      \* nothing delivered twice
